@@ -23,7 +23,7 @@ from liquid.parser import get_parser
 from liquid.stream import TokenStream
 from liquid.template import BoundTemplate
 
-from vf.hx import excluded, finish
+from vf.hx import cbool, cint, excluded, finish, untraced
 
 PROPERTY = "C10"
 ENV = Environment()
@@ -136,8 +136,10 @@ def _mk_real_single(kind):
             return True
         t0 = text_sel(s0)
         t1 = text_sel(s1)
+        l, r, i1, i2 = cbool(l), cbool(r), cbool(i1), cbool(i2)
         src, out = mk(l, r, i1, i2)
-        got = render_src(ENV, t0 + src + t1)
+        # all pieces are concrete strings now: the real lexer/parser/renderer run untraced
+        got = untraced(lambda: render_src(ENV, t0 + src + t1))
         return finish(got == expected(t0, t1, l, r, out))
     f.__name__ = f.__qualname__ = "c10_real_" + kind
     return f
@@ -152,8 +154,9 @@ def c10_real_short_comment(s0: int, s1: int, l: bool, r: bool) -> bool:
         return True
     t0 = text_sel(s0)
     t1 = text_sel(s1)
+    l, r = cbool(l), cbool(r)
     src, out = mk_short_comment(l, r)
-    got = render_src(ENVC, t0 + src + t1)
+    got = untraced(lambda: render_src(ENVC, t0 + src + t1))
     return finish(got == expected(t0, t1, l, r, out))
 
 
@@ -171,9 +174,10 @@ def _mk_real_pair(k1, k2):
         if excluded("c10_pair_%s_%s" % (k1, k2), locals()):
             return True
         t1 = text_sel(s1)
+        l1, r1, l2, r2, ia, ib = cbool(l1), cbool(r1), cbool(l2), cbool(r2), cbool(ia), cbool(ib)
         src1, out1 = mk1(l1, r1, ia, ib)
         src2, out2 = mk2(l2, r2, ib, ia)
-        got = render_src(ENV, " a " + src1 + t1 + src2 + " b ")
+        got = untraced(lambda: render_src(ENV, " a " + src1 + t1 + src2 + " b "))
         mid = t1
         if r1:
             mid = mid.lstrip()
@@ -196,7 +200,48 @@ for _k1 in KINDS:
     for _k2 in KINDS:
         _n = "c10_pair_%s_%s" % (_k1, _k2)
         globals()[_n] = _mk_real_pair(_k1, _k2)
-        CONDITIONS.append({"fn": _n, "quick": 60 if (_k1, _k2) in _QUICK_PAIRS else None, "thorough": 150, "sel_only": True})
+        CONDITIONS.append({"fn": _n, "quick": 60, "thorough": 150, "sel_only": True})
+
+
+# ---- pairs involving the shorthand comment {# #} (template_comments=True) ------------------------------------
+CKINDS = dict(KINDS)
+CKINDS["short_comment"] = (mk_short_comment, 2)
+
+
+def _mk_real_cpair(k1, k2):
+    mk1, _ = CKINDS[k1]
+    mk2, _ = CKINDS[k2]
+
+    def f(s1: int, l1: bool, r1: bool, l2: bool, r2: bool, ia: bool, ib: bool) -> bool:
+        """
+        pre: 0 <= s1 <= 7
+        post: _
+        """
+        if excluded("c10_cpair_%s_%s" % (k1, k2), locals()):
+            return True
+        t1 = text_sel(s1)
+        l1, r1, l2, r2, ia, ib = cbool(l1), cbool(r1), cbool(l2), cbool(r2), cbool(ia), cbool(ib)
+        src1, out1 = mk1(l1, r1, ia, ib)
+        src2, out2 = mk2(l2, r2, ib, ia)
+        got = untraced(lambda: render_src(ENVC, " a " + src1 + t1 + src2 + " b "))
+        mid = t1
+        if r1:
+            mid = mid.lstrip()
+        if l2:
+            mid = mid.rstrip()
+        exp = (" a" if l1 else " a ") + out1 + mid + out2 + ("b " if r2 else " b ")
+        return finish(got == exp)
+    f.__name__ = f.__qualname__ = "c10_cpair_%s_%s" % (k1, k2)
+    return f
+
+
+for _k1 in CKINDS:
+    for _k2 in CKINDS:
+        if "short_comment" not in (_k1, _k2):
+            continue
+        _n = "c10_cpair_%s_%s" % (_k1, _k2)
+        globals()[_n] = _mk_real_cpair(_k1, _k2)
+        CONDITIONS.append({"fn": _n, "quick": 60, "thorough": 150, "sel_only": True})
 
 
 # ---------------------------------------------------------------------------
